@@ -317,6 +317,23 @@ func c11Gen(rt *rapid.T) c11Case {
 			case 1:
 				s64[rapid.IntRange(0, len(s64)-1).Draw(rt, "at")] = -int64(rapid.IntRange(1, 3).Draw(rt, "neg"))
 				c.valid, c.feature = false, "invalid-negative-extent"
+			case 2:
+				// several negative extents (their product may be positive), possibly next to a zero
+				for k := rapid.IntRange(2, 3).Draw(rt, "nNeg"); k > 0; k-- {
+					s64[rapid.IntRange(0, len(s64)-1).Draw(rt, "at")] *= -1
+				}
+				if rapid.IntRange(0, 3).Draw(rt, "withZero") == 0 {
+					s64[rapid.IntRange(0, len(s64)-1).Draw(rt, "zeroAt")] = 0
+				}
+				bad := false
+				for _, e := range s64 {
+					if e <= 0 {
+						bad = true
+					}
+				}
+				if bad {
+					c.valid, c.feature = false, "invalid-negative-extent"
+				}
 			}
 		}
 		c.node = mkNode("ConstantOfShape", nil, []string{"y"}, attrs...)
